@@ -8,7 +8,8 @@
   c08.worstcase   history monitor over every (mvr, cvr) pair of the simulated audit: replacing the manual record by a
                   phantom never raises the real overstatement assorter, and the drop equals the manual record's
                   reference assorter value (phantom MVR scored exactly 0).
-  c08.phantomcvr  an unpooled phantom CVR is scored 1/2 (overstatement + reference MVR score == 1/2).
+  c08.phantomcvr  an unpooled phantom CVR is scored 1/2 (overstatement + reference MVR score == 1/2); a pooled phantom CVR
+                  contributes exactly 1/2 to its batch's mean (reference batch means).
 """
 import copy
 import math
@@ -25,7 +26,8 @@ RULE = ("simulated elections with per-contest shortfalls none / one / all differ
         "phantom MVR lowered the assorter; distinct = hash of the spec")
 REQUIRED = ["contract:CVR.make_phantoms", "accounting_checked:style", "accounting_checked:no_style", "phantoms_created",
             "zero_shortfall_after_positive_shortfall", "bounds_unspecified", "worstcase_pairs", "phantom_mvr_strictly_lower",
-            "phantom_cvr_pairs", "phantom_cvr_with_votes_pairs", "second_call_on_same_input_list", "shortfalls_all_different", "assorter:plurality", "assorter:supermajority", "assorter:irv"]
+            "phantom_cvr_pairs", "phantom_cvr_with_votes_pairs", "second_call_on_same_input_list", "shortfalls_all_different",
+            "pool_means_with_phantoms_checked", "pool_means_with_phantoms_checked:assorter_bound_not_1", "assorter:plurality", "assorter:supermajority", "assorter:irv"]
 ASSUMPTIONS = ["card bounds >= number of CVRs listing the contest; input lists contain no phantoms",
                "a phantom labelled pooled inside a pooled batch is scored with that batch's mean by design (C03 depends "
                "on it): the 1/2 clause is asserted for unpooled phantom CVRs"]
@@ -208,6 +210,28 @@ def run_case(es, rec):
                             rec.violation("c08.phantomcvr", f"{sc['kind']}:unpooled_phantom_cvr_not_scored_half",
                                           {"contest": cid, "assertion": name, "card": cv.id, "cvr_side_score": cvr_side})
                             return
+    # pooled phantom CVRs enter the audit only through their batch's mean: each must contribute exactly 1/2 to the batch
+    # total (reference: sum of reference assorter values of the batch's real CVRs + 1/2 per phantom)
+    for cid, con in sim.contests.items():
+        sc = es["contests"][cid]
+        for name, a in con.assertions.items():
+            means = a.assorter.tally_pool_means
+            if means is None:
+                continue
+            for p, m in means.items():
+                members = [c for c in sim.cvr_list if c.pool and c.tally_pool == p and (not sim.use_style or c.has_contest(cid))]
+                n_ph = sum(1 for c in members if c.phantom)
+                if not members or not n_ph:
+                    continue
+                tot = sum(0.5 if c.phantom else E.ref_assort(sc, sim.desc[cid][name], c.votes.get(cid)) for c in members)
+                rec.count("pool_means_with_phantoms_checked")
+                if sc["kind"] == "supermajority" and sc["share"] != 0.5:
+                    rec.count("pool_means_with_phantoms_checked:assorter_bound_not_1")
+                if not math.isclose(float(m), tot / len(members), rel_tol=1e-9, abs_tol=1e-12):
+                    rec.violation("c08.phantomcvr", f"{sc['kind']}:pooled_phantom_cvr_not_counted_as_half_in_batch_mean",
+                                  {"contest": cid, "assertion": name, "pool": p, "batch_mean": float(m), "expected": tot / len(members),
+                                   "members": len(members), "phantoms": n_ph, "assorter_upper_bound": a.assorter.upper_bound})
+                    return
     # phantom CVRs with arbitrary contents ("all CVR contents"): whatever votes a phantom record carries, and whatever its
     # pool label, it is scored 1/2 unless it is pooled AND batch means are in force
     import random as _r
